@@ -62,6 +62,6 @@ Theorem C02_refuted_scaled_huge :
   exists d k, res_same (dt_export C0 d (PFloat (fmul (of_Z k) s01))) (Ok (PInt (k + 1))) = true /\
               in_setb d (PFloat (fmul (of_Z k) s01)) = true.
 Proof.
-  exists (TScaled s01 fzero (fmk 5 14)), 4167494598637787%Z.
+  exists (TScaled s01 fzero (fmk 500000000000000 0)), 4167494598637787%Z.
   split; vm_compute; reflexivity.
 Qed.
